@@ -340,12 +340,7 @@ Qed.
 
 (* ---------- well-formed accepted requests ---------- *)
 Definition canon_ok (kv : bytes * bytes) : bool := bytes_eqb (canon_key (fst kv)) (fst kv).
-Definition body_ok (b : wbody) : bool :=
-  match b with
-  | WNone => true
-  | WLen n d => (0 <? n) && (n <? 10 ^ 80) && (blen d =? n)
-  | WChunked cs => forallb (fun d => blen d <? 16 ^ 16) cs
-  end.
+Definition body_ok : wbody -> bool := body_wf.
 Definition wf_wreq (r : wreq) : bool := forallb canon_ok (w_fields r) && body_ok (w_body r).
 
 Lemma sanitize_no_crlf v : no_crlf (sanitize_value v) = true.
@@ -464,7 +459,7 @@ Proof.
     { unfold good_kv. cbn [fst snd]. rewrite Hh. reflexivity. }
     assert (G2 : forallb good_kv (frl r) = true).
     { unfold frl. destruct (w_body r) as [|n d|cs]; [destruct (get_first s_cl (w_fields r)); reflexivity| |reflexivity].
-      cbn [body_ok] in Hb. assert (Hn80 : 0 <= n < 10 ^ 80) by lia.
+      cbn [body_ok body_wf] in Hb. assert (Hn80 : 0 <= n < 10 ^ 80) by lia.
       destruct (parse_dec_dec_of_Z n Hn80) as [_ Hd].
       assert (Hnc : no_crlf (dec_of_Z n) = true).
       { unfold no_crlf. apply (forallb_impl is_digit); [|exact Hd]. intros b Hb0. unfold is_digit in Hb0. lia. }
@@ -494,7 +489,7 @@ Proof.
   unfold frl, body_bytes, normalize, body_of. unfold fw. rewrite map_map.
   destruct (w_body r) as [|n d|cs].
   - destruct (get_first s_cl (w_fields r)); reflexivity.
-  - cbn [body_ok] in Hb. assert (Hn80 : 0 <= n < 10 ^ 80) by lia.
+  - cbn [body_ok body_wf] in Hb. assert (Hn80 : 0 <= n < 10 ^ 80) by lia.
     destruct (parse_dec_dec_of_Z n Hn80) as [Hpd Hd].
     cbn [map filter parsed fst snd].
     replace (bytes_eqb (canon_key s_cl) s_host) with false by reflexivity.
@@ -504,7 +499,7 @@ Proof.
     cbn [map snd app negb]. change (snd (parsed (s_cl, dec_of_Z n))) with (trim is_space (dec_of_Z n)).
     rewrite (digits_trim _ Hd), Hpd.
     replace (blen d =? n) with true by lia. reflexivity.
-  - cbn [body_ok] in Hb.
+  - cbn [body_ok body_wf] in Hb.
     cbn [map filter parsed fst snd].
     change (bytes_eqb (canon_key s_te) s_host) with false.
     change (bytes_eqb (canon_key s_te) s_te) with true.
@@ -524,11 +519,12 @@ Theorem C25_prop_of_model_lemma : forall i r,
   accepted i = inr r -> safe_request r = true -> wf_wreq r = true ->
   prop_C25 i (run_C25 i) = true.
 Proof.
-  intros i r Ha Hs Hw. unfold run_C25, prop_C25. rewrite Ha.
+  intros i r Ha Hs Hw. unfold run_C25. rewrite Ha, Hs. unfold prop_C25, not_modelled. rewrite Ha.
+  cbn [orb]. cbv beta iota. change (0 =? 0) with true. cbv iota.
   rewrite (C25_one_wellformed_request_lemma r Hs Hw). apply sreq_eqb_refl.
 Qed.
 
-(* ---------- refutations: accepted requests that are not safe, per frontend ---------- *)
+(* ---------- former refutation witnesses ---------- *)
 Definition h1_in (s : bytes) : val := VL [VZ 1; VB s].
 Definition fl_in (tag : Z) (ps : fields) : val := VL [VZ tag; VL (map (fun kv => VL [VB (fst kv); VB (snd kv)]) ps)].
 Definition b_get : bytes := [71;69;84].
@@ -540,24 +536,27 @@ Definition b_evil_line : bytes := [13;10;69;118;105;108;58;32;49]. (* \r\nEvil: 
 Definition h2_base (m p : bytes) : fields := [(p_method, m); (p_path, p); (p_scheme, b_https); (p_authority, b_ahost)].
 Definition spdy_base (m p h : bytes) (extra : fields) : fields :=
   [(p_method, m); (p_path, p); (p_scheme, b_https); (p_host, h); (p_version, b_ver)] ++ extra.
-(* HTTP/1: "G(T / HTTP/1.1\r\nHost: a\r\n\r\n" ; "GET / HTTP/1.1\r\nHost: a\rb\r\n\r\n" ; "GET / HTTP/1.1\r\nX A: 1\r\n\r\n" *)
 Definition w11 : val := h1_in ([71;40;84;32;47;32] ++ b_ver ++ [13;10;72;111;115;116;58;32;97;13;10;13;10]).
 Definition w13 : val := h1_in (b_get ++ [32;47;32] ++ b_ver ++ [13;10;72;111;115;116;58;32;97;13;98;13;10;13;10]).
 Definition w14 : val := h1_in (b_get ++ [32;47;32] ++ b_ver ++ [13;10;88;32;65;58;32;49;13;10;13;10]).
-(* HTTP/2: :method "GET /x" ; :path "/a b" *)
 Definition w21 : val := fl_in 2 (h2_base (b_get ++ [32;47;120]) b_slash).
 Definition w22 : val := fl_in 2 (h2_base b_get [47;97;32;98]).
-(* SPDY: :method with CRLF ; :path "/a b" ; :host with CRLF ; header name with CRLF *)
 Definition w31 : val := fl_in 3 (spdy_base (b_get ++ b_evil_line) b_slash b_ahost []).
 Definition w32 : val := fl_in 3 (spdy_base b_get [47;97;32;98] b_ahost []).
 Definition w33 : val := fl_in 3 (spdy_base b_get b_slash (b_ahost ++ b_evil_line) []).
 Definition w34 : val := fl_in 3 (spdy_base b_get b_slash b_ahost [([120;13;10;101;118;105;108;58;32;49], [118])]).
-Definition refuted25 (i : val) (k : Z) : Prop :=
-  kf_C25 i = k /\ (exists out, run_C25 i = VL [VZ 0; VB out]) /\ prop_C25 i (run_C25 i) = false.
-Lemma C25_refuted_lemma :
-  refuted25 w11 11 /\ refuted25 w13 13 /\ refuted25 w14 14 /\ refuted25 w21 21 /\ refuted25 w22 22 /\
-  refuted25 w31 31 /\ refuted25 w32 32 /\ refuted25 w33 33 /\ refuted25 w34 34.
-Proof. repeat split; try (vm_compute; reflexivity); eexists; vm_compute; reflexivity. Qed.
+(* after the repairs nothing is written for any of them: the HTTP/1 reader rejects the non-token method and
+   name (code 1); Request.write refuses the others (code 2) *)
+Definition refused (i : val) (code : Z) : Prop :=
+  run_C25 i = VL [VZ code; VB []] /\ prop_C25 i (run_C25 i) = true.
+Lemma C25_fixed_lemma :
+  refused w11 1 /\ refused w13 2 /\ refused w14 1 /\ refused w21 2 /\ refused w22 2 /\
+  refused w31 2 /\ refused w32 2 /\ refused w33 2 /\ refused w34 2.
+Proof. repeat split; vm_compute; reflexivity. Qed.
+(* in general: an accepted request that is not safe is refused by Request.write *)
+Lemma C25_unsafe_refused_lemma : forall i r,
+  accepted i = inr r -> safe_request r = false -> run_C25 i = VL [VZ 2; VB []].
+Proof. intros i r Ha Hs. unfold run_C25. rewrite Ha, Hs. reflexivity. Qed.
 
 (* non-vacuity: one safe, well-formed accepted request per frontend; HTTP/1 one carries a 3-byte body *)
 (* "POST /p HTTP/1.1\r\nHost: a\r\nX-B: a\rb\r\nContent-Length: 3\r\n\r\nabc" *)
@@ -750,10 +749,13 @@ Proof.
     first [exact (h1_canonical _ _ H) | exact (h2_canonical _ _ H) | exact (spdy_canonical _ _ H)].
 Qed.
 
-Theorem C25_prop_of_model_strong_lemma : forall i r,
-  accepted i = inr r -> safe_request r = true -> body_ok (w_body r) = true ->
-  prop_C25 i (run_C25 i) = true.
+Theorem C25_central_lemma : forall i,
+  wf_C25 i = true -> kf_C25 i = 0 -> prop_C25 i (run_C25 i) = true.
 Proof.
-  intros i r Ha Hs Hb. apply (C25_prop_of_model_lemma i r Ha Hs).
-  unfold wf_wreq. rewrite (frontends_canonical i r Ha), Hb. reflexivity.
+  intros i Hw _. unfold wf_C25 in Hw. destruct (accepted i) as [c|r] eqn:Ha.
+  - unfold run_C25, prop_C25, not_modelled. rewrite Ha. apply negb_true_iff in Hw. rewrite Hw.
+    destruct (c =? 98); [reflexivity|]. cbn [orb]. destruct (c =? 2); reflexivity.
+  - destruct (safe_request r) eqn:Hs.
+    + apply (C25_prop_of_model_lemma i r Ha Hs). unfold wf_wreq. rewrite (frontends_canonical i r Ha). exact Hw.
+    + rewrite (C25_unsafe_refused_lemma i r Ha Hs). unfold prop_C25, not_modelled. rewrite Ha. reflexivity.
 Qed.
